@@ -175,43 +175,31 @@ def runMonitor (prop : String) (ops obs : Array String) : IO Unit := do
       | none => out.putStrLn s!"mon {prop} FAIL clause=obs-parse line={i+1}"; fails := fails + 1
     | ["nft", "export"] =>
       -- the exported document must pass the module's own ValidateGenesis (C12)
-      if !(o.contains "validate=ok") then
-        out.putStrLn s!"mon {prop} FAIL clause=export-invalid line={i+1}"; fails := fails + 1
+      for c in exportFails (o.contains "validate=ok") do
+        out.putStrLn s!"mon {prop} FAIL clause={c} line={i+1}"; fails := fails + 1
     | ["nft", "reimport"] =>
       -- InitGenesis of the export must not panic and must preserve every owner, supply, balance,
       -- class record (creator, restriction flags, metadata) and token record (C12 for nft)
       match parseObs o with
       | some post =>
-        if o.head? != some "ok" then
-          out.putStrLn s!"mon {prop} FAIL clause=reimport-panic line={i+1}"; fails := fails + 1
-        if !(sameObs pre post) then
-          out.putStrLn s!"mon {prop} FAIL clause=reimport-changed-state line={i+1}"; fails := fails + 1
-        match invFail post with
-        | some c => out.putStrLn s!"mon {prop} FAIL clause={c} line={i+1}"; fails := fails + 1
-        | none => pure ()
+        for c in reimportFails pre (o.head? == some "ok") post do
+          out.putStrLn s!"mon {prop} FAIL clause={c} line={i+1}"; fails := fails + 1
         pre := post
       | none => out.putStrLn s!"mon {prop} FAIL clause=obs-parse line={i+1}"; fails := fails + 1
     | ["nft", "vjson", _] =>
       -- a pure ValidateBasic case: no message is delivered, the state must not move
       match parseObs o with
       | some post =>
-        if !(sameObs pre post) then
-          out.putStrLn s!"mon {prop} FAIL clause=rejected-but-changed line={i+1}"; fails := fails + 1
+        for c in pureFails pre post do
+          out.putStrLn s!"mon {prop} FAIL clause={c} line={i+1}"; fails := fails + 1
         pre := post
       | none => out.putStrLn s!"mon {prop} FAIL clause=obs-parse line={i+1}"; fails := fails + 1
     | _ =>
       match parseOp t, parseObs o with
       | some op, some post =>
         steps := steps + 1
-        let accepted := o.head? == some "ok"
-        if o.head? == some "panic" then
-          out.putStrLn s!"mon {prop} FAIL clause=panic line={i+1}"; fails := fails + 1
-        match stepFail pre op accepted post with
-        | some c => out.putStrLn s!"mon {prop} FAIL clause={c} line={i+1}"; fails := fails + 1
-        | none => pure ()
-        match invFail post with
-        | some c => out.putStrLn s!"mon {prop} FAIL clause={c} line={i+1}"; fails := fails + 1
-        | none => pure ()
+        for c in stepFails pre op (o.head? == some "ok") (o.head? == some "panic") post do
+          out.putStrLn s!"mon {prop} FAIL clause={c} line={i+1}"; fails := fails + 1
         pre := post
       | _, _ => out.putStrLn s!"mon {prop} FAIL clause=parse line={i+1}"; fails := fails + 1
   out.putStrLn s!"mon {prop} done steps={steps} fails={fails}"
